@@ -56,7 +56,7 @@ ASSUMPTIONS = [
     'authalic_sphere_radius and mean_normal_gravity are truncated series (not identities) and out of scope, as are the WGS inertial moments',
     'seed: quick explores the DESIGN lattice itself (jitter entry 0) plus the off-grid copy VERIF_SEED mod 8; thorough explores all 8',
 ]
-REQUIRED_CLASSES = ['f=0', 'f:tiny(<=1e-5)', 'f:small(<=1e-3)', 'f:earthlike(<=0.01)', 'f:large(>0.01)', 'cls:ReferenceEllipsoid',
+REQUIRED_CLASSES = ['lat:number-types', 'object-history', 'f=0', 'f:tiny(<=1e-5)', 'f:small(<=1e-3)', 'f:earthlike(<=0.01)', 'f:large(>0.01)', 'cls:ReferenceEllipsoid',
                     'cls:WGS', 'lat:equator', 'lat:pole', 'lat:mid', 'lat:near-pole/equator', 'h=0', 'h>0', 'continuity:f=0',
                     'continuity:f>0', 'body', 'body:f=0', 'igf', 'welmec']
 
@@ -266,6 +266,11 @@ def check_constants(ctx, E, R, ekey, track=True):
     return P
 
 
+import numpy as _npm
+_np_int64, _np_int32, _np_float32 = _npm.int64, _npm.int32, _npm.float32
+_np_0d = lambda x: _npm.array(float(x))
+
+
 def check_gravity(ctx, E, R, P, ekey, lats, hs, clsname):
     """normal_gravity over the latitude x height grid of one ellipsoid."""
     a, f, m = R.a, R.f, R.m
@@ -315,6 +320,21 @@ def check_gravity(ctx, E, R, P, ekey, lats, hs, clsname):
                 ctx.expect(g < prev, 'normal_gravity strictly decreases with height', hkey, g, f'< {prev!r}')
             prev = g
         ctx.outcome((round(G[(lat, 0.0)] / R.g_sphere, 9) if G[(lat, 0.0)] == G[(lat, 0.0)] else 'nan'))
+    # whole-degree latitudes carried by other numeric types (Python int, numpy integers, single precision)
+    for lat in lats:
+        if float(lat) == int(lat) and (lat, 0.0) in G and G[(lat, 0.0)] == G[(lat, 0.0)]:
+            for cn, cv in (('int', int), ('numpy.int64', _np_int64), ('numpy.int32', _np_int32), ('numpy.float32', _np_float32), ('0-d array', _np_0d)):
+                try:
+                    v = float(E.normal_gravity(cv(lat)))
+                except TypeError:
+                    ctx.outcome(('lat-type-refused', cn))
+                    continue
+                except Exception as ex:
+                    ctx.fail('normal_gravity(latitude in another numeric type) raises', f'{ekey} lat={lat!r} as {cn}', f'{type(ex).__name__}: {ex}'[:120], G[(lat, 0.0)])
+                    continue
+                tl = 1e-6 if cn == 'numpy.float32' else TOL
+                ctx.expect(_ok(_rel(v, G[(lat, 0.0)]), tl), 'normal_gravity(lat) does not depend on the numeric type carrying the latitude', f'{ekey} lat={lat!r} as {cn}', v, G[(lat, 0.0)], tl)
+            ctx.cls('lat:number-types')
     # the whole latitude grid at once as ONE array, twice on the same array object: equal to the scalar answers, array untouched
     import numpy as _np
     larr = _np.array([float(x) for x in lats]); lcopy = larr.copy()
@@ -462,6 +482,33 @@ def job_bodies_interleaved(ctx, clsname):
     ctx.sample({'class': clsname, 'interleaved': [s_[0] for s_ in specs]})
 
 
+def job_mutation(ctx, clsname):
+    """History on ONE ellipsoid object: every quantity is evaluated, then the rotation rate or GM attribute is assigned a new value and every
+    quantity is evaluated again: the object must answer like a fresh ellipsoid with the current (a, f, GM, w) (no value kept from before)."""
+    rg.selftest()
+    C = _cls(clsname)
+    As, Fs, Gs, Ms, LATS, HS = _alph(ctx)
+    a0, f0, gm0, w0 = 6378137.0, 1 / 298.257223563, 3.986004418e14, 7.292115e-5
+    starts = [('earth', a0, f0, gm0, w0), ('sphere', 6051800.0, 0.0, 3.24859e14, 2.99e-7), ('mars', 3396190.0, 0.00589, 4.282837e13, 7.088218e-5), ('flat', 1e7, 0.1, 1e15, 2e-4)]
+    for nm, a_, f_, gm_, w_ in starts:
+        E = C(a_, f_, gm_, w_)
+        cur = [a_, f_, gm_, w_]
+        for step, (attr, val) in enumerate([(None, None), ('w', 0.0), ('w', 3.0 * w_), ('gm', 2.0 * gm_), ('w', 0.5 * w_), ('gm', gm_)]):
+            if attr == 'w':
+                E.w = val; cur[3] = val
+            elif attr == 'gm':
+                E.gm = val; cur[2] = val
+            R = rg.Ellipsoid(*cur)
+            if R.m >= 0.05:
+                continue
+            ekey = f'{clsname} one object {nm} step#{step} after {attr}={val!r} {fkey(f_)}'
+            P = check_constants(ctx, E, R, ekey, track=False)
+            check_gravity(ctx, E, R, P, ekey, LATS[::3], HS[:2], clsname + ':mutated')
+            ctx.cls('object-history')
+            ctx.traces += 1
+    ctx.sample({'class': clsname, 'object_history': 'evaluate; w=0; evaluate; w*=3; evaluate; GM*=2; evaluate ...'})
+
+
 def job_formulas(ctx):
     """international_gravity / welmec_gravity on the latitude (x height) grid."""
     rg.selftest()
@@ -555,6 +602,8 @@ def run(ctx):
     jobs.append(('job_bodies_interleaved', ('ReferenceEllipsoid',)))
     jobs.append(('job_bodies_interleaved', ('WGS',)))
     jobs.append(('job_formulas', ()))
+    jobs.append(('job_mutation', ('ReferenceEllipsoid',)))
+    jobs.append(('job_mutation', ('WGS',)))
     core.run_jobs(ctx, __name__, jobs)
     ctx.notes['jitter_entries'] = ks
     ctx.notes['lattice'] = {'a': len(As), 'f': len(Fs), 'GM/a^2': len(Gs), 'm': len(Ms), 'lat': len(LATS), 'h': len(HS),
